@@ -24,7 +24,7 @@ func init() {
 			"after a call that must fail (negative position, inverted range) the script stops: rac.Reader keeps that error, an in-memory reader has no such state",
 		},
 	}
-	for layout := 0; layout < 4; layout++ {
+	for layout := 0; layout < 5; layout++ {
 		p.Harnesses = append(p.Harnesses, HSpec{Prop: "C14", Pkg: "lib/rac", Dir: "c14", Func: "VH_C14_Seq", Cfg: cfg,
 			Label: fmt.Sprintf("[layout=%d]", layout), Params: map[string]int{"LAYOUT": layout, "CALLS": 2, "MAXREAD": 6, "RES": 0}, ParamsT: map[string]int{"CALLS": 3, "MAXREAD": 9},
 			Reach: []string{"seq/done", "seq/call"}})
